@@ -402,7 +402,9 @@ Definition layout_ok : bool :=
                        && (sw_cols s <=? 1024)
                        && forallb (fun w => (0 <=? cw_row w) && (cw_row w <? tt_first_row T) && (0 <=? cw_col w) && (cw_col w <? sw_cols s)) (sw_writes s)
                        && (tt_first_row T <=? sw_rows s)) data_sheets0
-  && (0 <=? tt_first_row T) && (tt_row_step T =? 1) && (tt_empty_mark T =? tt_first_row T).
+  && (0 <=? tt_first_row T) && (tt_row_step T =? 1) && (tt_empty_mark T =? tt_first_row T)
+  && forallb (fun cf => (0 <=? fst cf) && (fst cf <? 1024)) (tt_cols_always T ++ tt_cols_lot T ++ tt_cols_nolot T)
+  && (match tt_legend_method_row T with Some _ => true | None => false end).
 Definition tables_ok : bool := targets_exist && kept_are_keys && map_functional && names_ok && layout_ok.
 (** [append_rows] adds at least as many rows as there are fractions of the type *)
 Definition append_ok : Prop := forall c, 0 <= c -> c <= tt_append_rows T (tt_min_rows T) c.
